@@ -27,6 +27,7 @@ func c11(c *Ctx) {
 	c11R4(c, "R4")
 	sConfigClone(c, "R4/S-CFGCLONE")
 	sDelete(c, "R5/S-DELETE")
+	sState(c, "R6/S-STATE")
 }
 
 func sinkTracks(c *Ctx, createPrefix string) []engine.Track {
